@@ -1,4 +1,215 @@
-import PrimitivModel.Model.KernelsArith
+import PrimitivModel.Lemmas.ArithIndex
+import PrimitivModel.Props.C01.Arith
+import PrimitivModel.Props.C02.Arith
+/-
+C11 (memory safety), arithmetic kernels: index bounds and writes-all of the loop nests.
+
+For every loop kernel of Model/KernelsArith.lean: every address the loop reads or writes is below the size of
+the tensor it addresses (`*_in_bounds`), and the forward kernels write every cell of their raw result
+(`*_writes_all`: the write addresses of the loop nest are exactly `0, 1, …, size−1`, in order; hence the result
+does not depend on the previous content of the buffer, `*_junk_free`).  The hypotheses are the facts the
+front-end guard establishes about the dimensions: a batch stride is 0 for an operand with batch 1 and the full
+volume for an operand with the result's batch (`StrideOK`), and a tensor's volume is the product of its dims.
+-/
 namespace Primitiv.C11.Arith
-theorem placeholder : True := trivial
+open Primitiv Primitiv.Arith Finset
+open Primitiv.C01.Arith.Binary (StrideOK addr_lt)
+
+/-! ### broadcasting binary / scalar kernels and the in-place updates -/
+
+/-- forward: the write addresses `b·size + i` of the loop nest are `0 … bs·size − 1`, each exactly once -/
+theorem binary_writes_all (bs size : Nat) :
+    (range2 bs size).map (fun t => t.1 * size + t.2) = List.range (bs * size) := range2_addr bs size
+
+/-- forward and backward: an operand (or accumulator) with `Bx` samples and stride `skip ∈ {0, size}` is
+addressed inside its `Bx·size` elements -/
+theorem binary_in_bounds {skip size bs Bx : Nat} (h : StrideOK skip size bs Bx) :
+    ∀ t ∈ range2 bs size, t.1 * skip + t.2 < Bx * size := addr_lt h
+example : StrideOK 0 4 3 1 := Or.inl ⟨rfl, le_refl 1⟩
+
+/-- `*src_k` of the scalar kernels: `skip_k = k.has_batch()` -/
+theorem scalar_k_in_bounds {skipK bs Bk : Nat} (h : (skipK = 0 ∧ 1 ≤ Bk) ∨ (skipK = 1 ∧ bs ≤ Bk)) :
+    ∀ t ∈ range2 bs 1, t.1 * skipK < Bk := by
+  intro t ht
+  rw [mem_range2] at ht
+  rcases h with ⟨rfl, h1⟩ | ⟨rfl, h1⟩ <;> omega
+
+/-- the forward result does not depend on what the raw buffer held -/
+theorem binFw_junk_free {α : Type} (op : α → α → α) (size bs skipA skipB : Nat) (a b : Buf α) (j1 j2 : α)
+    {n : Nat} (hn : n < bs * size) :
+    binFw op size bs skipA skipB a b j1 n = binFw op size bs skipA skipB a b j2 n := by
+  unfold binFw
+  apply writeAt_init_irrelevant _ _ _ _ _ (range2_addr_nodup bs size)
+  rw [range2_addr]
+  exact List.mem_range.mpr hn
+
+theorem scalarFw_junk_free {α : Type} (op : α → α → α) (size bs skipX skipK : Nat) (x k : Buf α) (j1 j2 : α)
+    {n : Nat} (hn : n < bs * size) :
+    scalarFw op size bs skipX skipK x k j1 n = scalarFw op size bs skipX skipK x k j2 n := by
+  unfold scalarFw
+  apply writeAt_init_irrelevant _ _ _ _ _ (range2_addr_nodup bs size)
+  rw [range2_addr]
+  exact List.mem_range.mpr hn
+
+/-- in-place add/subtract: `bs = max(bx, by)`; destination stride 0 or `size`, source stride 0 or `size` -/
+theorem inplace_in_bounds {skipD skipS size bs Bd Bs : Nat} (hd : StrideOK skipD size bs Bd) (hs : StrideOK skipS size bs Bs) :
+    ∀ t ∈ range2 bs size, t.1 * skipD + t.2 < Bd * size ∧ t.1 * skipS + t.2 < Bs * size :=
+  fun t ht => ⟨addr_lt hd t ht, addr_lt hs t ht⟩
+
+/-! ### matmul -/
+namespace Matmul
+open Primitiv.C01.Arith.Matmul (InBounds)
+
+/-- every read of `a`, `b`, `gy` and every write of `y`, `ga`, `gb` is inside its tensor
+(`a`: `d2·d1` elements per sample, `b`: `d3·d2`, `y`: `d3·d1`) -/
+theorem in_bounds (D : MatDims) (Ba Bb : Nat)
+    (ha : StrideOK D.skipA (D.d2 * D.d1) D.bs Ba) (hb : StrideOK D.skipB (D.d3 * D.d2) D.bs Bb) :
+    InBounds D (Ba * (D.d2 * D.d1)) (Bb * (D.d3 * D.d2)) := by
+  intro t ht
+  obtain ⟨h1, h2, h3, h4⟩ := mem_matIts.mp ht
+  exact ⟨bcast_idx_lt h1 (idx_lt h4 h3) ha, bcast_idx_lt h1 (idx_lt h2 h4) hb, idx_lt h1 (idx_lt h2 h3)⟩
+example : StrideOK 6 (3 * 2) 4 4 := Or.inr ⟨rfl, le_refl 4⟩
+
+/-- the zero-fill covers the whole result: no cell keeps the raw content -/
+theorem writes_all {α : Type} [Add α] [Mul α] (zero : α) (D : MatDims) (a b : Buf α) (j1 j2 : α) {n : Nat}
+    (hn : n < D.bs * (D.d3 * D.d1)) : matmulFw zero D a b j1 n = matmulFw zero D a b j2 n := by
+  unfold matmulFw
+  rw [if_pos hn, if_pos hn]
+
+end Matmul
+
+/-! ### conv2d -/
+namespace Conv2d
+open Primitiv.C01.Arith.Conv2d (InBounds)
+
+theorem mem_its {D : ConvDims} {t : ConvIt} (ht : t ∈ D.its) :
+    t.bn < D.bs ∧ t.yc < D.yc ∧ t.yx < D.yw ∧ t.yy < D.yh ∧ t.xc < D.xc ∧ t.wx < D.ww ∧ t.wy < D.wh ∧
+      D.valid t = true := by
+  unfold ConvDims.its ConvDims.allIts at ht
+  obtain ⟨hm, hv⟩ := List.mem_filter.mp ht
+  obtain ⟨s, hs, hin⟩ := List.mem_flatMap.mp hm
+  obtain ⟨r, hr, rfl⟩ := List.mem_map.mp hin
+  obtain ⟨a1, a2, a3, a4⟩ := mem_range4.mp hs
+  obtain ⟨b1, b2, b3⟩ := mem_range3.mp hr
+  exact ⟨a1, a2, a3, a4, b1, b2, b3, hv⟩
+
+/-- the bounds test of the kernel: the window position is a valid coordinate of x -/
+theorem valid_pos {D : ConvDims} {t : ConvIt} (hv : D.valid t = true) :
+    (D.posY t).toNat < D.xh ∧ (D.posX t).toNat < D.xw := by
+  simp only [ConvDims.valid, Bool.and_eq_true, decide_eq_true_eq] at hv
+  omega
+
+/-- every read of `x`, `w`, `gy` and every write of `y`, `gx`, `gw` is inside its tensor, for every padding,
+stride, dilation and batch pattern (`x`: `xc·xw·xh` per sample, `w`: `yc·xc·ww·wh`, `y`: `yc·yw·yh`) -/
+theorem in_bounds (D : ConvDims) (Bx Bw : Nat)
+    (hx : StrideOK D.xShift (D.xc * (D.xw * D.xh)) D.bs Bx)
+    (hw : StrideOK D.wShift (D.yc * (D.xc * (D.ww * D.wh))) D.bs Bw)
+    (hY : D.yShift = D.yc * (D.yw * D.yh)) :
+    InBounds D (Bx * (D.xc * (D.xw * D.xh))) (Bw * (D.yc * (D.xc * (D.ww * D.wh)))) := by
+  intro t ht
+  obtain ⟨h1, h2, h3, h4, h5, h6, h7, hv⟩ := mem_its ht
+  obtain ⟨py, px⟩ := valid_pos hv
+  refine ⟨?_, ?_, ?_⟩
+  · unfold ConvDims.xa
+    apply bcast_idx_lt h1 _ hx
+    calc (t.xc * D.xw + (D.posX t).toNat) * D.xh + (D.posY t).toNat < D.xc * D.xw * D.xh := idx_lt (idx_lt h5 px) py
+      _ = D.xc * (D.xw * D.xh) := by ring
+  · unfold ConvDims.wa
+    apply bcast_idx_lt h1 _ hw
+    have e1 : D.ww - 1 - t.wx < D.ww := by omega
+    have e2 : D.wh - 1 - t.wy < D.wh := by omega
+    calc ((t.yc * D.xc + t.xc) * D.ww + (D.ww - 1 - t.wx)) * D.wh + (D.wh - 1 - t.wy)
+        < D.yc * D.xc * D.ww * D.wh := idx_lt (idx_lt (idx_lt h2 h5) e1) e2
+      _ = D.yc * (D.xc * (D.ww * D.wh)) := by ring
+  · unfold ConvDims.ya
+    rw [hY]
+    apply idx_lt h1
+    calc (t.yc * D.yw + t.yx) * D.yh + t.yy < D.yc * D.yw * D.yh := idx_lt (idx_lt h2 h3) h4
+      _ = D.yc * (D.yw * D.yh) := by ring
+
+/-- the `py[y_addr] = 0` writes of the four output loops visit every cell of the result exactly once -/
+theorem writes_all (D : ConvDims) (hY : D.yShift = D.yc * (D.yw * D.yh)) :
+    D.outer.map (C02.Arith.convCell D) = List.range (D.bs * D.yShift) := by
+  have h : D.outer.map (C02.Arith.convCell D)
+      = (range4 D.bs D.yc D.yw D.yh).map fun t =>
+          t.1 * (D.yc * (D.yw * D.yh)) + (t.2.1 * (D.yw * D.yh) + (t.2.2.1 * D.yh + t.2.2.2)) := by
+    apply List.map_congr_left
+    intro s _
+    simp only [C02.Arith.convCell, hY]
+    ring
+  rw [h, range4_addr, hY]
+
+end Conv2d
+
+/-! ### max_pool2d -/
+namespace MaxPool
+
+/-- a cell the window scan accepts is a cell of the `xw × xh` plane -/
+theorem window_in_bounds (D : PoolDims) (yx yy : Nat) : ∀ a ∈ D.window yx yy, a < D.xw * D.xh := by
+  intro a ha
+  unfold PoolDims.window at ha
+  obtain ⟨wx, _, hin⟩ := List.mem_flatMap.mp ha
+  simp only at hin
+  split at hin
+  · simp at hin
+  · next hx =>
+    obtain ⟨wy, _, hsome⟩ := List.mem_filterMap.mp hin
+    split at hsome
+    · simp at hsome
+    · next hy =>
+      simp only [Option.some.injEq] at hsome
+      subst hsome
+      apply idx_lt <;> omega
+
+/-- forward and backward: every read of `x` (and every `+=` into `gx`) is inside the `rep` planes -/
+theorem reads_in_bounds (D : PoolDims) {t : Nat × Nat × Nat} (ht : t ∈ D.outer) :
+    ∀ a ∈ D.window t.2.1 t.2.2, D.xbase t + a < D.rep * (D.xh * D.xw) := by
+  intro a ha
+  have h := window_in_bounds D _ _ a ha
+  have ht' := mem_range3.mp ht
+  unfold PoolDims.xbase
+  rw [Nat.mul_comm D.xh D.xw]
+  exact idx_lt ht'.1 h
+
+theorem bw_write_in_bounds {α : Type} [BEq α] (D : PoolDims) (x y : Buf α) {t : Nat × Nat × Nat} (ht : t ∈ D.outer)
+    {n : Nat} (h : firstMatch D x y t = some n) : n < D.rep * (D.xh * D.xw) := by
+  unfold firstMatch at h
+  cases hf : (D.window t.2.1 t.2.2).find? (fun a => x (D.xbase t + a) == y (D.ya t)) with
+  | none => rw [hf] at h; simp at h
+  | some a =>
+    rw [hf] at h
+    simp only [Option.map_some, Option.some.injEq] at h
+    subst h
+    exact reads_in_bounds D ht a (List.mem_of_find?_eq_some hf)
+
+/-- the three output loops write every cell of the result exactly once, in order -/
+theorem writes_all (D : PoolDims) : D.outer.map D.ya = List.range (D.rep * (D.yw * D.yh)) := by
+  have h : D.outer.map D.ya
+      = (range3 D.rep D.yw D.yh).map fun t => t.1 * (D.yw * D.yh) + (t.2.1 * D.yh + t.2.2) := by
+    apply List.map_congr_left
+    intro t _
+    simp only [PoolDims.ya, Nat.mul_comm D.yh D.yw]
+  rw [h, range3_addr]
+
+/-- hence the forward result does not depend on the raw buffer's content -/
+theorem junk_free {α : Type} [LT α] [DecidableLT α] (lowest : α) (D : PoolDims) (x : Buf α) (j1 j2 : α) {n : Nat}
+    (hn : n < D.rep * (D.yw * D.yh)) : maxPoolFw lowest D x j1 n = maxPoolFw lowest D x j2 n := by
+  unfold maxPoolFw
+  have hnd : (D.outer.map D.ya).Nodup := by rw [writes_all]; exact List.nodup_range
+  apply writeAt_init_irrelevant _ _ _ _ _ hnd
+  rw [writes_all]
+  exact List.mem_range.mpr hn
+
+end MaxPool
+
+/-- The dimension hypotheses above (`StrideOK`, volume = product of the dims, `yShift = yc·yw·yh`) follow from
+the front-end guards (`devBinFw`, `devMatmulFw`, `devConv2dFw`, `devMaxPoolFw` and the `guardBwAB` forms) for
+every Shape obtainable from the constructor; stated for matmul, not proved (needs the Shape invariants of C09). -/
+def front_end_guard_full : Prop :=
+  ∀ (a b ys : Shape), (∃ da ba, Shape.new da ba = .ok a) → (∃ db bb, Shape.new db bb = .ok b) →
+    ShapeOps.matmul a b = .ok ys →
+    let D := matDims a b ys
+    StrideOK D.skipA (D.d2 * D.d1) D.bs a.batch ∧ StrideOK D.skipB (D.d3 * D.d2) D.bs b.batch ∧
+      a.volume = D.d2 * D.d1 ∧ b.volume = D.d3 * D.d2 ∧ ys.volume = D.d3 * D.d1
+
 end Primitiv.C11.Arith
